@@ -383,6 +383,46 @@ func monC05(c *child.Ctx, replay json.RawMessage) {
 				b.Height = hgt
 				run(baseCase{B: b, TypeField: 1006, Cut: -1}, true)
 			}
+			// sparse messages: every subset of the nine fields zero, the others at an
+			// extreme - what an unconfigured receiver, a test signal or a station at the
+			// origin sends; with nothing, zeros and ones behind the fields
+			for sub := 0; sub < 512; sub++ {
+				for ext := 0; ext < 3; ext++ {
+					b := &ref.Base{Type: t}
+					pick := func(bit int, lo, hi int64) int64 {
+						if sub>>uint(bit)&1 == 0 {
+							return 0
+						}
+						switch ext {
+						case 0:
+							return hi
+						case 1:
+							return lo
+						}
+						return 1
+					}
+					b.StationID = uint(pick(0, 256, 4095))
+					if ext == 1 && sub&1 == 1 {
+						b.StationID = []uint{256, 512, 3840, 1}[sub>>1%4]
+					}
+					b.ITRF = uint(pick(1, 32, 63))
+					b.Ign1 = uint(pick(2, 8, 15))
+					b.X = pick(3, -(1 << 37), 1<<37-1)
+					b.Ign2 = uint(pick(4, 2, 3))
+					b.Y = pick(5, -(1 << 37), 1<<37-1)
+					b.Ign3 = uint(pick(6, 2, 3))
+					b.Z = pick(7, -(1 << 37), 1<<37-1)
+					b.Height = uint(pick(8, 32768, 65535))
+					switch (sub + ext) % 3 {
+					case 1:
+						b.Trailing = make([]byte, 1+sub%7)
+					case 2:
+						b.Trailing = bytes.Repeat([]byte{0xff}, 1+sub%5)
+					}
+					run(baseCase{B: b, TypeField: t, Cut: -1}, true)
+					c.Count("sparse_messages", 1)
+				}
+			}
 			// every truncation length 0..full-1 must be an error, never a panic
 			b := gen.RandBase(r, t)
 			b.Trailing = nil
